@@ -14,7 +14,7 @@ BOUND = {
  "C08": "every start date; offsets -40..40 / -130..130; all roll kinds; offsets to +-2 771; month pairs (a seventh of / all first months x all second months)",
  "C09": "all labelled trees n <= 5 (+ n = 6 with 2 orderings) / n <= 6; every shape <= 9 / 12; five shapes on 10 .. 13 currencies; rejection space on 4 / 4-5 currencies and on the broken large shapes; settlement instants half a second apart; clones",
  "C10": "29 / 52 markets to fixpoint with the settlement date as part of the state (rolled between 2 / 3 dates); sensitivities n <= 4 / 5 and a menu on 8 .. 13 currencies; large-market histories of length 2 / 3; clone independence in every transition; quotes whose variable carries another quote's automatic name; every history of length 5 / 6 on the two smallest markets without merging states; updates naming a pair twice",
- "C11": "n <= 5 / 6 nodes, all supply permutations; index_left lists <= 9 / 11 and long lists <= 48 / 130; 7 .. 300 nodes on six grids, 1 023 .. 2 100 evenly spaced; look-ups 1 ms either side of every node",
+ "C11": "n <= 5 / 6 nodes, all supply permutations; index_left lists <= 9 / 11 and long lists <= 48 / 130; 7 .. 300 nodes on six grids, 1 023 .. 2 100 evenly spaced; look-ups 1 ms either side of every node; pairs of curves with equal ends looked up in blocks and strictly alternating over every pair of queries",
  "C12": "3 600 / more initial curves to fixpoint; 9 .. 210 nodes on six grids through the switches 1, 2, 1, 0, 2; every ordered pair of 40 (curve id, node count) configurations; clone independence; nodes on shared variables in permuted order through every switch sequence of length 3 / 4, names compared literally",
  "C13": "all patterns <= 3x3, every 7th 4x4 / all 65 536; permutations 4..5 / 6, generator set <= 8, four permutations of 9 .. 33; two row-scale vectors; tiny entry at six magnitudes and four extreme scales; curved entries; graded systems 3 .. 12 in both row orders; square systems with least squares allowed; tall <= 12x6",
  "C14": "k <= 6 / 7 on the 5-position grid; 7 .. 64 interior knots for k <= 5; ten power-of-two scalings (2^-1060 .. 2^900), five translations with both signs of zero, far translation by 2^53; vector route in three point orders; doubles next to every knot; caught aborts first; knot vectors spanning 2^-40 .. 2^20 against a plain recursion",
